@@ -18,7 +18,17 @@ CHECK = Check(
           "on *[]string) over a 14-call alphabet (Set incl. empty text and out of range, Compare, Get, Length, Capacity, Loop, "
           "DeepEqual, CopyTo in both directions, Reset) on pointer values, length 2 on by-value and initially empty values, plus seeded "
           "random histories up to length 15 whose indices follow the current length; the full element contents are re-read after every "
-          "call. Every case is run twice: mode A compares with the specification computed from Spec/StringsSpec.v on the abstract "
+          "call. Long texts and long histories (storage handed out for one Set has to stay what it is while the element lives): on "
+          "4-element values in both representations and forms, a text of 1023/1024/1025/4097 bytes (quick; 21 lengths from 255 to "
+          "131073 thorough, 65537 in a shorter history in quick) stored at index 0 followed by 18 calls on the other elements (short, "
+          "equally long, empty texts; Compare/Get/Loop/DeepEqual/CopyTo of the long element in between); 120..160 (up to 1000 "
+          "thorough) Sets of 8/40/600-byte texts at indices 1..3, all different, the empty and multi-byte ones included, putting "
+          "more than 1, 4 and 64 KiB into the sequence while index 0 keeps what the first Set stored, with reads, a CopyTo in each "
+          "direction in between; 4 (60) random histories of 100..200 calls, mostly Sets with texts of 0..4097 bytes. Each through "
+          "Set's own buffer, SetWithBuffer with a new caller buffer and with a recycled one (used for 100000 bytes of other data and "
+          "Reset before the first call). Every Get result (the string / slice header, sharing the element's bytes) is kept by the "
+          "runner and re-read after every later call. Texts are printed in hex with runs of 8 or more equal bytes as (hh*n). "
+          "Every case is run twice: mode A compares with the specification computed from Spec/StringsSpec.v on the abstract "
           "sequence (alternatives where the property leaves a choice, '*' where it is silent: nil pointers, foreign types, paths that "
           "are not one segment, non-text or nil operands, the 3 non-comparison operators), mode D compares every detail the model "
           "predicts (which error, reference kinds, nil-ness, element and outer capacities). Aliasing is observed natively from address "
@@ -42,7 +52,9 @@ MANIFEST = {
              "C17_loop_break (all elements in order with decimal keys; atoi(decimal j) = j for every j < 2^63), C17_deq_iff (true iff the "
              "wrapped sequences are equal, two empty ones included), C17_copyto_appends_fresh / C17_copy_equal (appended copies live in "
              "fresh pairwise distinct allocations), C17_reset, and C17_histories: for every list of calls the model simulates the abstract "
-             "sequence step by step (induction over the operation list). The three defects of the pinned code (Set ignores the empty "
+             "sequence step by step (induction over the operation list), and C17_histories_keep_storage: along any history every element "
+             "is an element that was there before, unchanged, or lives in an allocation handed out during the history (stored bytes "
+             "are never rewritten, whatever the number of calls or the length of the texts). The three defects of the pinned code (Set ignores the empty "
              "text, two empty sequences unequal, Compare stores a result for an index >= len) are C17_refuted_* theorems on the `pinned` "
              "version of the model, with the full statements proved on the sub-domains non-empty text / a non-empty operand / negative "
              "index; they were repaired in /repo by three fix commits and the `fixed` model is what the correspondence stream runs against "
